@@ -430,4 +430,247 @@ Proof.
   - apply cleave_sound_complete; [exact Hok | discriminate].
 Qed.
 
+(* ---------- the empty peptide (only possible with min_length = 0) ---------- *)
+Lemma sorted_dup_adjacent l :
+  StronglySorted le l -> ~ NoDup l -> exists i a, nth_error l i = Some a /\ nth_error l (S i) = Some a.
+Proof.
+  induction l as [|x l IH]; intros Hs Hnd; [exfalso; apply Hnd; constructor|].
+  apply StronglySorted_inv in Hs. destruct Hs as [Hs Hx].
+  destruct (in_dec Nat.eq_dec x l) as [Hin|Hnin].
+  - destruct l as [|y l']; [destruct Hin|].
+    apply StronglySorted_inv in Hs. destruct Hs as [_ Hy].
+    assert (x <= y) by (apply Forall_cons_iff in Hx; apply Hx).
+    assert (y <= x).
+    { destruct Hin as [->|Hin]; [lia|]. rewrite Forall_forall in Hy. apply Hy. exact Hin. }
+    exists 0, x. simpl. split; [reflexivity | f_equal; lia].
+  - assert (Hnd' : ~ NoDup l) by (intros H; apply Hnd; constructor; assumption).
+    destruct (IH Hs Hnd') as (i & a & Hi & Hi'). exists (S i), a. auto.
+Qed.
+
+Lemma filter_between_0_1 l : filter (between 0 1) l = [].
+Proof.
+  induction l as [|c l IH]; simpl; [reflexivity|].
+  unfold between at 1. destruct c as [|c]; simpl; exact IH.
+Qed.
+
+Theorem cleave_empty s sites mc minl maxl semi clip :
+  sites_ok (length s) sites ->
+  (In [] (dg_cleave A isM s sites mc minl maxl semi clip) <->
+   minl = 0 /\ (~ NoDup sites \/
+                (clip = true /\ 1 <= maxl /\ In 1 sites /\ exists x r, s = x :: r /\ isM x = true))).
+Proof.
+  intros Hok. pose proof (sites_ok_sorted _ _ Hok) as Hs. rewrite cleave_idx. split.
+  - intros (i & d & a & b & Ha & Hb & Hd & Hl & Hder).
+    pose proof (nth_error_In _ _ Hb) as Inb.
+    pose proof (sites_ok_bound _ _ _ Hok Inb) as Hbn.
+    assert (Hle : a <= b) by (apply (sorted_nth_le sites i (i + d) a b Hs); auto; lia).
+    pose proof (pyslice_length s a b Hle Hbn) as Hlen.
+    destruct Hder as [Hp|[(Hc & x & Hp & HM & Hm)|(_ & Hne & _)]]; [| |congruence].
+    + rewrite <- Hp in Hl. simpl in Hl. split; [lia|]. left. intros Hnd.
+      rewrite <- Hp in Hlen. simpl in Hlen. assert (a = b) by lia. subst b.
+      rewrite NoDup_nth_error in Hnd.
+      assert (i = i + d); [|lia].
+      apply Hnd; [apply nth_error_Some; congruence | congruence].
+    + simpl in Hm. split; [lia|]. right.
+      apply andb_true_iff in Hc. destruct Hc as [Hc Hi]. apply Nat.eqb_eq in Hi. subst i.
+      rewrite (sites_ok_head _ _ Hok) in Ha. inversion Ha; subst a.
+      rewrite Hp in Hlen, Hl. simpl in Hlen, Hl. assert (b = 1) by lia. subst b.
+      split; [exact Hc|]. split; [lia|]. split; [exact Inb|].
+      unfold pyslice in Hp. simpl in Hp. destruct s as [|y r]; [discriminate|].
+      simpl in Hp. inversion Hp; subst y. exists x, r. auto.
+  - intros (Hmin & [Hnd|(Hc & Hmax & In1 & x & r & Hsx & HM)]); subst minl.
+    + destruct (sorted_dup_adjacent sites Hs Hnd) as (i & a & Hi & Hi').
+      exists i, 1, a, a. rewrite Nat.add_1_r.
+      assert (Hp : pyslice s a a = []) by (unfold pyslice; rewrite Nat.sub_diag; reflexivity).
+      rewrite Hp. simpl. repeat split; try assumption; try lia. left; reflexivity.
+    + assert (In0 : In 0 sites) by (apply (nth_error_In sites 0); apply (sites_ok_head _ _ Hok)).
+      destruct (sorted_pick 0 1 sites Hs In0 In1 ltac:(lia)) as (i & j & Hi & Hj & Hij & Hcnt).
+      rewrite filter_between_0_1 in Hcnt. simpl in Hcnt.
+      assert (Hn : 0 < length s) by (subst s; simpl; lia).
+      pose proof (sites_ok_zero _ _ i Hok Hn Hi). subst i.
+      exists 0, j, 0, 1. simpl.
+      assert (Hp : pyslice s 0 1 = [x]) by (subst s; reflexivity).
+      rewrite Hp. simpl. repeat split; try assumption; try lia.
+      right; left. rewrite Hc. split; [reflexivity|]. exists x. simpl. auto.
+Qed.
+
 End DigestP.
+
+(* ---------- sites described by a predicate on positions ---------- *)
+Lemma filter_none {B} (f : B -> bool) l : (forall x, In x l -> f x = false) -> filter f l = [].
+Proof.
+  induction l as [|x l IH]; intros H; simpl; [reflexivity|].
+  rewrite (H x (or_introl eq_refl)). apply IH. intros y Hy. apply H. right; exact Hy.
+Qed.
+
+Lemma filter_all {B} (f : B -> bool) l : (forall x, In x l -> f x = true) -> filter f l = l.
+Proof.
+  induction l as [|x l IH]; intros H; simpl; [reflexivity|].
+  rewrite (H x (or_introl eq_refl)). f_equal. apply IH. intros y Hy. apply H. right; exact Hy.
+Qed.
+
+Lemma filter_comm {B} (f g : B -> bool) l : filter f (filter g l) = filter g (filter f l).
+Proof.
+  induction l as [|x l IH]; simpl; [reflexivity|].
+  destruct (g x) eqn:Eg; destruct (f x) eqn:Ef; simpl; rewrite ?Eg, ?Ef, IH; reflexivity.
+Qed.
+
+Lemma filter_between_seq a b n :
+  a < b -> b <= n -> filter (between a b) (seq 1 n) = seq (S a) (b - S a).
+Proof.
+  intros Hab Hbn.
+  replace n with (a + ((b - S a) + (n + 1 - b))) at 1 by lia.
+  rewrite seq_app, seq_app, !filter_app.
+  replace (1 + a) with (S a) by lia.
+  rewrite (filter_none (between a b) (seq 1 a)).
+  2:{ intros c Hc. apply in_seq in Hc. unfold between.
+      replace (a <? c) with false; [reflexivity|]. symmetry. apply Nat.ltb_ge. lia. }
+  rewrite (filter_none (between a b) (seq (S a + (b - S a)) (n + 1 - b))).
+  2:{ intros c Hc. apply in_seq in Hc. unfold between.
+      replace (c <? b) with false; [apply andb_false_r|]. symmetry. apply Nat.ltb_ge. lia. }
+  rewrite filter_all.
+  2:{ intros c Hc. apply in_seq in Hc. unfold between.
+      replace (a <? c) with true by (symmetry; apply Nat.ltb_lt; lia).
+      replace (c <? b) with true by (symmetry; apply Nat.ltb_lt; lia). reflexivity. }
+  simpl. apply app_nil_r.
+Qed.
+
+(* for sites given by a cut predicate: membership and missed-cleavage count without any list of sites *)
+Theorem cut_sites_mem (cut : nat -> bool) n c :
+  In c (0 :: filter cut (seq 1 n) ++ [n]) <-> c = 0 \/ c = n \/ (1 <= c <= n /\ cut c = true).
+Proof.
+  simpl. rewrite in_app_iff, filter_In, in_seq. simpl. split.
+  - intros [H|[[H1 H2]|[H|[]]]]; [left; auto | right; right; split; [lia|auto] | right; left; auto].
+  - intros [H|[H|[H1 H2]]]; [left; auto | right; right; left; auto | right; left; split; [lia|auto]].
+Qed.
+
+Theorem cut_sites_missed (cut : nat -> bool) n a b :
+  a < b -> b <= n ->
+  missed (0 :: filter cut (seq 1 n) ++ [n]) a b = length (filter cut (seq (S a) (b - S a))).
+Proof.
+  intros Hab Hbn. unfold missed. cbn [filter].
+  replace (between a b 0) with false by (unfold between; destruct a; reflexivity).
+  rewrite filter_app, filter_comm, filter_between_seq by assumption.
+  cbn [filter]. replace (between a b n) with false; [rewrite app_nil_r; reflexivity|].
+  unfold between. replace (n <? b) with false by (symmetry; apply Nat.ltb_ge; lia).
+  rewrite andb_false_r. reflexivity.
+Qed.
+
+(* ---------- residue-class enzymes: the computed sites ---------- *)
+Section ClassSites.
+Variable A : Type.
+Variables cls nf : A -> bool.
+
+(* position c (1-based: "after residue c") is a cleavage position *)
+Definition class_cut (s : list A) (c : nat) : bool :=
+  match c with
+  | 0 => false
+  | S c' => match nth_error s c' with
+            | Some x => cls x && negb (match nth_error s c with Some y => nf y | None => false end)
+            | None => false
+            end
+  end.
+
+Lemma class_ends_filter r : forall pre,
+  dg_class_ends A cls nf r (length pre)
+  = filter (class_cut (pre ++ r)) (seq (S (length pre)) (length r)).
+Proof.
+  induction r as [|x r IH]; intros pre; [reflexivity|].
+  assert (E1 : nth_error (pre ++ x :: r) (length pre) = Some x)
+    by (rewrite nth_error_app2, Nat.sub_diag; [reflexivity | lia]).
+  assert (E2 : nth_error (pre ++ x :: r) (S (length pre)) = nth_error r 0).
+  { rewrite nth_error_app2 by lia. replace (S (length pre) - length pre) with 1 by lia. reflexivity. }
+  specialize (IH (pre ++ [x])). rewrite app_length, <- app_assoc in IH. simpl in IH.
+  rewrite Nat.add_1_r in IH.
+  cbn [dg_class_ends length seq filter]. rewrite IH.
+  unfold class_cut at 2. rewrite E1, E2.
+  destruct r as [|y r']; cbn [nth_error];
+    destruct (cls x && negb _); reflexivity.
+Qed.
+
+Theorem class_sites_spec s :
+  dg_sites_class A cls nf s = 0 :: filter (class_cut s) (seq 1 (length s)) ++ [length s].
+Proof.
+  unfold dg_sites_class, dg_sites_of_ends.
+  pose proof (class_ends_filter s []) as H. cbn [length app] in H. rewrite H. reflexivity.
+Qed.
+
+Lemma filter_seq_sorted (f : nat -> bool) : forall n k,
+  StronglySorted le (filter f (seq k n)) /\ Forall (fun c => k <= c < k + n) (filter f (seq k n)).
+Proof.
+  induction n as [|n IH]; intros k; simpl; [split; constructor|].
+  destruct (IH (S k)) as [Hs Hb].
+  assert (Hb' : Forall (fun c => k <= c < k + S n) (filter f (seq (S k) n)))
+    by (eapply Forall_impl; [|exact Hb]; simpl; intros; lia).
+  destruct (f k).
+  - split.
+    + constructor; [exact Hs|]. eapply Forall_impl; [|exact Hb]. simpl; intros; lia.
+    + constructor; [lia | exact Hb'].
+  - split; assumption.
+Qed.
+
+Theorem class_sites_ok s : sites_ok (length s) (dg_sites_class A cls nf s).
+Proof.
+  exists (filter (class_cut s) (seq 1 (length s))). split; [apply class_sites_spec|].
+  destruct (filter_seq_sorted (class_cut s) (length s) 1) as [Hs Hb].
+  split; [exact Hs|]. eapply Forall_impl; [|exact Hb]. simpl; intros; lia.
+Qed.
+End ClassSites.
+
+(* ---------- entry points on character codes ---------- *)
+Lemma memz_in c l : dg_memz c l = true <-> In c l.
+Proof.
+  induction l as [|x l IH]; simpl; [split; [discriminate | intros []]|].
+  rewrite orb_true_iff, Z.eqb_eq, IH. split; intros [H|H]; auto.
+Qed.
+
+Lemma cleave_z_nat s sites mc minl maxl semi clip :
+  dg_cleave_z s sites (Z.of_nat mc) (Z.of_nat minl) (Z.of_nat maxl) semi clip
+  = dg_cleave Z dg_isM s sites mc minl maxl semi clip.
+Proof.
+  unfold dg_cleave_z.
+  replace (Z.of_nat mc <? 0)%Z with false by (symmetry; apply Z.ltb_ge; lia).
+  replace (Z.of_nat maxl <? 0)%Z with false by (symmetry; apply Z.ltb_ge; lia).
+  rewrite !Nat2Z.id. reflexivity.
+Qed.
+
+(* negative Python ints: nothing for mc < 0 or max_length < 0; min_length < 0 acts like 0 *)
+Lemma cleave_z_neg s sites mc minl maxl semi clip :
+  (mc < 0 \/ maxl < 0)%Z -> dg_cleave_z s sites mc minl maxl semi clip = [].
+Proof.
+  intros H. unfold dg_cleave_z.
+  destruct (mc <? 0)%Z eqn:E1; [reflexivity|]. destruct (maxl <? 0)%Z eqn:E2; [reflexivity|].
+  apply Z.ltb_ge in E1, E2. lia.
+Qed.
+
+Lemma cleave_z_negmin s sites mc minl maxl semi clip :
+  (minl <= 0)%Z -> dg_cleave_z s sites mc minl maxl semi clip = dg_cleave_z s sites mc 0 maxl semi clip.
+Proof.
+  intros H. unfold dg_cleave_z. destruct minl; try lia; reflexivity.
+Qed.
+
+Lemma sites_of_ends_ok {A} (s : list A) ends :
+  StronglySorted le ends -> Forall (fun c => 1 <= c <= length s) ends ->
+  sites_ok (length s) (dg_sites_of_ends A s ends).
+Proof. intros Hs Hb. exists ends. auto. Qed.
+
+Theorem digest_ends_spec s ends mc minl maxl semi clip p :
+  StronglySorted le ends -> Forall (fun c => 1 <= c <= length s) ends -> p <> [] ->
+  (In p (dg_digest_ends s ends (Z.of_nat mc) (Z.of_nat minl) (Z.of_nat maxl) semi clip) <->
+   Digest_spec Z dg_isM s (0 :: ends ++ [length s]) mc minl maxl semi clip p).
+Proof.
+  intros Hs Hb Hne. unfold dg_digest_ends. rewrite cleave_z_nat.
+  apply cleave_sound_complete; [apply sites_of_ends_ok; assumption | exact Hne].
+Qed.
+
+Theorem digest_class_spec cls nf s mc minl maxl semi clip p :
+  p <> [] ->
+  (In p (dg_digest_class cls nf s (Z.of_nat mc) (Z.of_nat minl) (Z.of_nat maxl) semi clip) <->
+   Digest_spec Z dg_isM s
+     (0 :: filter (class_cut Z (fun c => dg_memz c cls) (fun c => dg_memz c nf) s) (seq 1 (length s))
+        ++ [length s])
+     mc minl maxl semi clip p).
+Proof.
+  intros Hne. unfold dg_digest_class. rewrite cleave_z_nat, <- class_sites_spec.
+  apply cleave_sound_complete; [apply class_sites_ok | exact Hne].
+Qed.
